@@ -1,14 +1,58 @@
 //go:build verif
 
-// Assumed contract for the persister (cbor serialisation and the storage
-// backends are outside the verifier's reach): what its callers must provide.
+// Contracts for the persister, checked by /verif/cmd/vcgo. Save and Load are
+// verified against the code; only the two cbor wrappers (Serialize,
+// Deserialize: reflection-driven third-party code) and the storage interface
+// db.Db are assumed.
 // Comments only; compiled only under the `verif` tag.
 
 package persist
 
-// Save serialises the attached state and cache: both must be attached (the
-// engine attaches them during its first-time setup, ensurePersist).
-//@ func (*Persister).Save
+// cbor.Marshal / cbor.Unmarshal are outside the verifier's reach. Serialize
+// changes nothing; Deserialize may rewrite the attached state and cache (and
+// whatever they own) but never the engine, the VM, the renderer or the resource.
+//@ func (*Persister).Serialize
 //@   assumed
+//@   requires p != nil
+//@   modifies count(stfault)
+//@   ensures count(stfault) == old(count(stfault)) + ite(result1 != nil, 1, 0)
+//@ func (*Persister).Deserialize
+//@   assumed
+//@   requires p != nil
+//@   modifies everything except f:engine., f:vm., f:render., f:resource., f:persist.Persister.db, f:persist.Persister.ctx, f:persist.Persister.flush, count(stfault)
+//@   ensures count(stfault) == old(count(stfault)) + ite(result != nil, 1, 0)
+// a record that decodes was written by Save, which never writes a snapshot without state or cache
+//@   ensures result == nil ==> p.State != nil && p.Memory != nil
+
+// Save serialises the attached state and cache - both must be attached (the
+// engine attaches them during its first-time setup, ensurePersist) - and
+// writes the snapshot exactly once, as a session-state record (C07, C11) under
+// the key it was given. A snapshot that could not be serialised is never
+// written, and a failed write is reported (C12: no silent loss).
+//@ func (*Persister).Save
+//@   serves C07, C08, C11, C12
 //@   requires @attached p != nil && p.State != nil && p.Memory != nil
-//@   modifies everything except f:engine., f:vm., f:render., f:resource.
+//@   requires @store p.db != nil
+// an invalidated session is deliberately refused with a panic; it is reachable only through a failing entry function, not through client input (C08 excludes it)
+//@   premise !p.State.invalid && !p.Memory.invalid
+// flushing after the save empties the attached cache and replaces the state: they must be well-formed
+//@   premise p.flush ==> cache.shape(p.Memory) && cache.unique(p.Memory) && cache.sized(p.Memory) && state.flagsOk(p.State) && int(p.State.BitSize) <= 4294967288
+//@   modifies everything except f:engine., f:vm., f:render., f:resource., f:persist.Persister.db, f:persist.Persister.ctx, f:persist.Persister.flush, count(dbputs), count(stfault)
+//@   callsite (db.Db).Put assert[C07,C11,C12] @record dbPfx(refOf(p.db)) == db.DATATYPE_STATE && str(arg2) == key && arg1 == p.ctx
+//@   ensures[C07,C12] @once result == nil ==> count(dbputs) == old(count(dbputs)) + 1
+//@   ensures[C07,C12] @atmostonce count(dbputs) <= old(count(dbputs)) + 1
+//@   ensures[C12] @reports count(stfault) > old(count(stfault)) ==> result != nil
+//@   ensures[C07] @kept !p.flush ==> p.State == old(p.State) && p.Memory == old(p.Memory)
+
+// Load reads the record Save writes: same data type, same key, one read; a
+// read error or an undecodable record is reported, never swallowed (C12: the
+// engine must not take a damaged record for a session).
+//@ func (*Persister).Load
+//@   serves C07, C11, C12
+//@   requires p != nil && p.db != nil
+//@   modifies everything except f:engine., f:vm., f:render., f:resource., f:persist.Persister.db, f:persist.Persister.ctx, f:persist.Persister.flush, count(dbgets), count(stfault)
+//@   callsite (db.Db).Get assert[C07,C11,C12] @record dbPfx(refOf(p.db)) == db.DATATYPE_STATE && str(arg2) == key && arg1 == p.ctx
+//@   callsite (*Persister).Deserialize assert[C07,C12] @fetched count(dbgets) == old(count(dbgets)) + 1
+//@   ensures[C07,C12] @once count(dbgets) == old(count(dbgets)) + 1
+//@   ensures[C12] @reports count(stfault) > old(count(stfault)) ==> result != nil
+//@   ensures[C07] @nowrite count(dbputs) == old(count(dbputs))
